@@ -238,6 +238,40 @@ def gen_step_feldman(rng, n):
     return cases
 
 
+SHASH = [
+    [0, 1, 2, 3, 4, 5],                 # identity: one key per bucket once the table has grown
+    [0, 0, 0, 0, 0, 0],                 # constant: everything in bucket 0
+    [1, 1, 3, 3, 3, 1],                 # two odd hashes: bucket 1, then 1 / 3
+    [5, 13, 21, 29, 37, 45],            # same low 3 bits: same bucket up to 8 buckets
+    [2, 6, 4, 0, 7, 3],
+    [7, 7, 6, 6, 5, 5],
+]
+
+
+def gen_step_splitlist(rng, n):
+    """step-correspondence cases for LV.Model.SplitList: cfg = [loop fuel, table capacity (= constructor item count), hashes]"""
+    cases = []
+    for i in range(n):
+        nthreads = 2 if rng.chance(2, 3) else 3
+        hs = rng.choice(SHASH)
+        nkeys = 2 + rng.below(5)
+        keys = []
+        while len(keys) < nkeys:
+            k = rng.below(6)
+            if k not in keys:
+                keys.append(k)
+        threads = []
+        for t in range(nthreads):
+            ops = []
+            for _ in range(1 + rng.below(4)):
+                r = rng.below(100)
+                code = 1 if r < 55 else (7 if r < 80 else 13)
+                ops.append([code, rng.choice(keys)])
+            threads.append(ops)
+        cases.append({"id": "s%d" % i, "cfg": [80, rng.choice([32, 32, 64])] + hs, "threads": threads, "sched": gen_sched(rng, nthreads, rng.below(4))})
+    return cases
+
+
 # ------------------------------------------------------------------------------------------------------------
 # running and deciding
 
